@@ -31,7 +31,32 @@ def generate(tier, seed):
     n = 100 if tier == "quick" else 4000
     for k in range(n):
         cases.append({"kind": "samelabel", "seed": "%d:sl:%d" % (seed, k), "cost": 14})
+    n = 120 if tier == "quick" else 4000
+    for k in range(n):
+        cases.append({"kind": "ligandcopies", "seed": "%d:lc:%d" % (seed, k), "cost": 14})
     return cases
+
+
+def ligand_copies_cutout(rng, classes):
+    """Two copies of one titratable ligand (one residue name, one chain, two residue numbers: one printed
+    label) placed next to the same ionizable group, so that a group can have two coupled partners that
+    only the residue number tells apart."""
+    from .. import fragments
+    from .c16 import titratable_anchor
+    recs = cluster_cutout(rng)
+    fname = rng.choice(("acetate", "acetate", "methylamine", "ammonium", "acetamidinium", "methylguanidinium", "pyridine"))
+    anchor = titratable_anchor(recs, rng)
+    chain = rng.choice(("L", anchor.chain if anchor is not None else "L"))
+    placed = 0
+    for k_ in range(2):
+        frag, _e, _d = fragments.place_near(recs, fname, rng, anchor=anchor, dist_A=rng.choice((2.8, 3.0, 3.3, 3.8)),
+                                            chain=chain, resnum=274 + k_, min_clear_A=2.55)
+        if frag:
+            recs = recs + frag
+            placed += 1
+    if placed == 2:
+        classes.append("two-copies-of-a-ligand-at-one-group")
+    return recs
 
 
 def setup(tier):
@@ -110,6 +135,8 @@ def run_case(case, tier):
     elif case["kind"] == "samelabel":
         recs = same_label_twin_cutout(rng)
         classes.append("same-label-twins")
+    elif case["kind"] == "ligandcopies":
+        recs = ligand_copies_cutout(rng, classes)
     elif rng.random() < 0.8:
         recs = cluster_cutout(rng)
     else:
